@@ -84,6 +84,12 @@ class T(ast.NodeTransformer):
         return ast.Attribute(value=ast.Name(id="__pyvc__", ctx=ast.Load()), attr=name, ctx=ast.Load())
 
     def _comp(self, node, kind):
+        if len(node.generators) == 2 and not any(g.is_async for g in node.generators) and not node.generators[0].ifs:
+            # [E for x in S for y in T]  ==  flat([[E for y in T] for x in S])
+            inner = ast.ListComp(elt=node.elt, generators=[node.generators[1]])
+            outer = ast.ListComp(elt=inner, generators=[node.generators[0]])
+            self.counts["T2"] += 1
+            return ast.Call(func=self._rt("flat"), args=[self.visit(outer)], keywords=[])
         self.generic_visit(node)
         if len(node.generators) != 1 or node.generators[0].is_async:
             return node
